@@ -2,12 +2,13 @@ import PebblesVerif.Basic.Schema
 import PebblesVerif.Basic.J
 import PebblesVerif.Model.ISel
 import PebblesVerif.Model.GoString
+import PebblesVerif.Gen.Introspect
 /-!
 Model of the introspection resolver, introspection/introspection.go (with the repairs of
-repo_fixes/c16-introspection-resolver.patch: `__type(name:)` read through the variables, root
-types from `schema.Query/Mutation/Subscription`, kind guards on `fields` / `interfaces` /
+repo_fixes/c16-introspection-resolver.patch: `__type(name:)` read through the variables, kind guards on `fields` / `interfaces` /
 `possibleTypes` / `enumValues` / `inputFields`, `possibleTypes` from `schema.PossibleTypes`,
-`inputFields` through `resolveInputValue`).
+`inputFields` through `resolveInputValue`). Root types are looked up by the literal
+names `Query` / `Mutation` / `Subscription`, as the code does.
 
 Every `resolveX(…, selectionSet)` is
 
@@ -211,12 +212,6 @@ def sortByName : List J → List J
 def sortPayload (sub : List ISel) (xs : List J) : List J :=
   if sortable sub then sortByName xs else xs
 
-/-- `resolveRootType` -/
-def rootV (S : Schema) (root : Option String) (pairsOf : String → List (String × J)) : J :=
-  match root with
-  | none => .null
-  | some n => typeV S (.named n) (pairsOf n)
-
 mutual
   /-- `resolveSchema` -/
   def schemaP1 (S : Schema) (tyOrd : List TypeDef) (dirOrd : List DirDef) (vars : List (String × J)) :
@@ -226,9 +221,9 @@ mutual
       match n with
       | "types" => [(a, .arr (sortPayload sub (tyOrd.map (fun td =>
             typeV S (.named td.name) (typeP S vars (.named td.name) sub)))))]
-      | "queryType" => [(a, rootV S S.query (fun r => typeP S vars (.named r) sub))]
-      | "mutationType" => [(a, rootV S S.mutation (fun r => typeP S vars (.named r) sub))]
-      | "subscriptionType" => [(a, rootV S S.subscription (fun r => typeP S vars (.named r) sub))]
+      | "queryType" => [(a, typeV S (.named "Query") (typeP S vars (.named "Query") sub))]
+      | "mutationType" => [(a, typeV S (.named "Mutation") (typeP S vars (.named "Mutation") sub))]
+      | "subscriptionType" => [(a, typeV S (.named "Subscription") (typeP S vars (.named "Subscription") sub))]
       | "directives" => [(a, .arr (sortPayload sub (dirOrd.map (fun d =>
             .obj (J.assignAll [] (dirP S vars d sub))))))]
       | _ => []
@@ -246,7 +241,8 @@ mutual
     | .field a n args sub =>
       match n with
       | "__type" =>
-        let name := ISel.strArg vars args "name"
+        -- `Value.Value(ir.Variables)` (repaired) or `Value.Raw` (a variable reference yields its own name)
+        let name := if Gen.Introspect.typeNameReadsVariables then ISel.strArg vars args "name" else ISel.rawArg args "name"
         [(a, typeV S (.named name) (typeP S vars (.named name) sub))]
       | "__schema" => [(a, .obj (J.assignAll [] (schemaP S tyOrd dirOrd vars sub)))]
       | _ => []
